@@ -543,6 +543,45 @@ def oracle_pipe(ck, rng):
             if not (np.array_equal(q1, q2) and np.array_equal(arr_, a0_)): fails.append("converter call-history (gaussian_filter)")
         except TypeError:
             pass
+    # currying: a function whose scale parameter has a default still receives the scale of the evaluation
+    from acryo.pipe import provider_function, converter_function
+
+    @converter_function
+    def times_scale(img, scale=1.0):
+        return img * scale
+
+    @provider_function
+    def box_of(scale=1.0, value=3.0):
+        return np.full((2, 2, 2), value * scale, dtype=np.float32)
+
+    @converter_function
+    def plus(img, scale=1.0, k=0.0):
+        return img + k * scale
+    small = np.ones((2, 2, 2), dtype=np.float32)
+    for sc in (1.0, 0.5, 4.0):
+        if not np.allclose(np.asarray(times_scale()(small, sc)), small * sc): fails.append(f"curried converter with a default scale evaluated at scale {sc}")
+        if not np.allclose(np.asarray(box_of()(sc)), 3.0 * sc) or not np.allclose(np.asarray(box_of(value=2.0)(sc)), 2.0 * sc): fails.append(f"curried provider with a default scale at scale {sc}")
+        if not np.allclose(np.asarray(plus(k=2.0)(small, sc)), small + 2.0 * sc): fails.append(f"curried converter with default scale and extra argument at scale {sc}")
+        if not np.allclose(np.asarray((times_scale() @ box_of())(sc)), 3.0 * sc * sc): fails.append(f"composition of curried functions with default scales at scale {sc}")
+    # file providers: same tolerance rule (relative) and same resampling as the array provider, at any magnitude of the scale
+    import tempfile, shutil, os, mrcfile
+    dtmp = tempfile.mkdtemp(prefix="c19", dir=common.WORKROOT)
+    try:
+        fimg = rng.normal(size=(10, 11, 12)).astype(np.float32)
+        for osc in (0.2, 1.0, 25.0):
+            pth = os.path.join(dtmp, f"t{osc}.mrc")
+            with mrcfile.new(pth, overwrite=True) as fh:
+                fh.set_data(fimg); fh.voxel_size = osc * 10
+            for rel in (1.0, 1.004, 1.04, 0.9, 2.0):
+                sc = osc * rel
+                fa = np.asarray(pipe.from_array(fimg, original_scale=osc)(sc))
+                for nm_, ff in (("from_file(header scale)", pipe.from_file(pth)), ("from_file(original_scale)", pipe.from_file(pth, original_scale=osc)),
+                                ("from_files", pipe.from_files([pth], original_scale=osc))):
+                    got_ = ff(sc); got_ = np.asarray(got_[0] if isinstance(got_, list) else got_)
+                    if got_.shape != fa.shape or not np.allclose(got_, fa, atol=1e-4):
+                        fails.append(f"{nm_} at original scale {osc} requested at {rel} x that: shape {got_.shape} vs from_array {fa.shape}")
+    finally:
+        shutil.rmtree(dtmp, ignore_errors=True)
     # the batch provider behaves like the single one for every (original_scale, tol, scale): unchanged within tol, resampled beyond it
     for osc, tol_, sc in [(1.0, 0.1, 1.05), (1.0, 0.1, 0.93), (1.0, 0.001, 1.004), (0.5, 0.2, 0.58), (1.0, 0.01, 1.005), (1.0, 0.03, 1.2)]:
         one = pipe.from_array(img, original_scale=osc, tol=tol_)(sc)
